@@ -89,24 +89,25 @@ type OpResult struct {
 
 // Result is the observation of a cell.
 type Result struct {
-	Ops         []OpResult `json:"ops"`
-	Panic       string     `json:"panic,omitempty"`
-	PluginPid   int        `json:"plugin_pid,omitempty"`
-	PluginAlive bool       `json:"plugin_alive"`
-	PluginFiles []string   `json:"plugin_files"` // entries left in the plugin's socket dir
-	HostFiles   []string   `json:"host_files"`   // entries left in the host's temp dir
-	ExitMarker  bool       `json:"exit_marker"`
-	Goroutines  []string   `json:"goroutines,omitempty"` // go-plugin goroutines left in the host
-	SyncOut     string     `json:"sync_out,omitempty"`
-	SyncErr     string     `json:"sync_err,omitempty"`
-	Addr        string     `json:"addr,omitempty"`       // network|address returned by the last successful Start
-	PluginLog   string     `json:"plugin_log,omitempty"` // tail of the plugin's raw stderr (ClientConfig.Stderr), for diagnosis
-	Protocol    string     `json:"protocol,omitempty"`
-	Version     int        `json:"version"`
-	Env         []string   `json:"env,omitempty"`
-	HelperErr   string     `json:"helper_err,omitempty"`
-	StdinIsHost bool       `json:"stdin_is_host"`
-	SocketDir   string     `json:"socket_dir,omitempty"`
+	Ops          []OpResult `json:"ops"`
+	Panic        string     `json:"panic,omitempty"`
+	PluginPid    int        `json:"plugin_pid,omitempty"`
+	PluginAlive  bool       `json:"plugin_alive"`
+	PluginFiles  []string   `json:"plugin_files"` // entries left in the plugin's socket dir
+	HostFiles    []string   `json:"host_files"`   // entries left in the host's temp dir
+	ExitMarker   bool       `json:"exit_marker"`
+	Goroutines   []string   `json:"goroutines,omitempty"` // go-plugin goroutines left in the host
+	SyncOut      string     `json:"sync_out,omitempty"`
+	SyncErr      string     `json:"sync_err,omitempty"`
+	Addr         string     `json:"addr,omitempty"`          // network|address returned by the last successful Start
+	XlateRefused int64      `json:"xlate_refused,omitempty"` // addresses the container-like runner refused to translate
+	PluginLog    string     `json:"plugin_log,omitempty"`    // tail of the plugin's raw stderr (ClientConfig.Stderr), for diagnosis
+	Protocol     string     `json:"protocol,omitempty"`
+	Version      int        `json:"version"`
+	Env          []string   `json:"env,omitempty"`
+	HelperErr    string     `json:"helper_err,omitempty"`
+	StdinIsHost  bool       `json:"stdin_is_host"`
+	SocketDir    string     `json:"socket_dir,omitempty"`
 }
 
 const cookieKey, cookieVal = "VERIF_PLUGIN_COOKIE", "c0ffee"
@@ -133,8 +134,9 @@ func hostPlugins(proto string) plugin.PluginSet {
 // wrapRunner is a RunnerFunc that wraps the default command runner (a custom runner in the
 // sense of the API, same process semantics).
 type procRunner struct {
-	cmd            *exec.Cmd
-	stdout, stderr io.ReadCloser
+	cmd                *exec.Cmd
+	stdout, stderr     io.ReadCloser
+	hostDir, pluginDir string // see xlate
 }
 
 func newProcRunner(cmd *exec.Cmd) (runner.Runner, error) {
@@ -177,9 +179,28 @@ func (r *procRunner) ID() string {
 	}
 	return strconv.Itoa(r.cmd.Process.Pid)
 }
-func (r *procRunner) Diagnose(context.Context) string                  { return "" }
-func (r *procRunner) PluginToHost(n, a string) (string, string, error) { return n, a, nil }
-func (r *procRunner) HostToPlugin(n, a string) (string, string, error) { return n, a, nil }
+func (r *procRunner) Diagnose(context.Context) string { return "" }
+
+// Address translation of a container-like runner: the plugin sees the shared socket directory under another
+// path (pluginDir, here a symlink to hostDir) and, like a bind mount, nothing outside it. Identity when unset.
+func (r *procRunner) PluginToHost(n, a string) (string, string, error) {
+	return r.xlate(n, a, r.pluginDir, r.hostDir, "plugin->host")
+}
+func (r *procRunner) HostToPlugin(n, a string) (string, string, error) {
+	return r.xlate(n, a, r.hostDir, r.pluginDir, "host->plugin")
+}
+func (r *procRunner) xlate(n, a, from, to, dir string) (string, string, error) {
+	if r.hostDir == "" || n != "unix" {
+		return n, a, nil
+	}
+	if !strings.HasPrefix(a, from+"/") {
+		xlateRefused.Add(1)
+		return "", "", fmt.Errorf("address translation %s: %s is outside the shared directory %s", dir, a, from)
+	}
+	return n, to + strings.TrimPrefix(a, from), nil
+}
+
+var xlateRefused atomic.Int64
 
 // RunCell executes a cell inside the helper process.
 func RunCell(c *Cell) (res *Result) {
@@ -257,6 +278,7 @@ func RunCell(c *Cell) (res *Result) {
 		}
 		return cfg
 	}
+	var fakeRunners []*fakeAttached
 	var testRC *plugin.ReattachConfig
 	var testCancel context.CancelFunc
 	var closeCh chan struct{}
@@ -294,6 +316,25 @@ func RunCell(c *Cell) (res *Result) {
 					cmd.Path, cmd.Args = cmd0.Path, cmd0.Args
 					cmd.Env = append(cmd.Env, cmd0.Env...)
 					return newProcRunner(cmd)
+				}
+			case "runner-xlate": // a container-like runner: the plugin sees the socket directory under another path
+				cmd0 := mkCmd()
+				cfg.UnixSocketConfig = &plugin.UnixSocketConfig{TempDir: hostTmp}
+				cfg.RunnerFunc = func(l hclog.Logger, cmd *exec.Cmd, tmp string) (runner.Runner, error) {
+					view := filepath.Join(c.Dir, "plugin-view")
+					os.Remove(view)
+					if err := os.Symlink(tmp, view); err != nil {
+						return nil, err
+					}
+					cmd.Path, cmd.Args = cmd0.Path, cmd0.Args
+					cmd.Env = append(cmd.Env, cmd0.Env...)
+					cmd.Env = append(cmd.Env, "PLUGIN_UNIX_SOCKET_DIR="+view) // last assignment wins
+					r, err := newProcRunner(cmd)
+					if err == nil {
+						pr := r.(*procRunner)
+						pr.hostDir, pr.pluginDir = tmp, view
+					}
+					return r, err
 				}
 			}
 			switch c.Host.Conflict {
@@ -398,6 +439,55 @@ func RunCell(c *Cell) (res *Result) {
 			}
 			clients[i].Kill()
 			record(op, t0, nil, strconv.FormatBool(clients[i].Exited()))
+		case "killconc": // arg concurrent Kill calls on the current client; a panic in any of them is reported
+			n, _ := strconv.Atoi(arg)
+			if n < 2 {
+				n = 2
+			}
+			cl := clients[cur()]
+			var wg sync.WaitGroup
+			var pmu sync.Mutex
+			panics := ""
+			for k := 0; k < n; k++ {
+				wg.Add(1)
+				go func() {
+					defer wg.Done()
+					defer func() {
+						if r := recover(); r != nil {
+							pmu.Lock()
+							panics += fmt.Sprint(r) + "; "
+							pmu.Unlock()
+						}
+					}()
+					cl.Kill()
+				}()
+			}
+			wg.Wait()
+			if panics != "" {
+				record(op, t0, errors.New("Kill panicked: "+panics), strconv.FormatBool(cl.Exited()))
+			} else {
+				record(op, t0, nil, strconv.FormatBool(cl.Exited()))
+			}
+		case "treattachfn": // test-mode reattach config that also carries a ReattachFunc (a custom runner)
+			if testRC == nil {
+				record(op, t0, errors.New("no test reattach config"), "")
+				break
+			}
+			cp := *testRC
+			fr := &fakeAttached{}
+			fakeRunners = append(fakeRunners, fr)
+			cp.ReattachFunc = func() (runner.AttachedRunner, error) { return fr, nil }
+			cfg := mkConfig()
+			cfg.Reattach = &cp
+			clients = append(clients, plugin.NewClient(cfg))
+			stores, protos = append(stores, nil), append(protos, nil)
+			record(op, t0, nil, "")
+		case "fakekills?": // how often a test-mode ReattachFunc's runner was asked to kill
+			k := 0
+			for _, fr := range fakeRunners {
+				k += int(fr.kills.Load())
+			}
+			record(op, t0, nil, strconv.Itoa(k))
 		case "reattach": // a new client from client i's ReattachConfig
 			i := cur()
 			if arg != "" {
@@ -642,6 +732,7 @@ func RunCell(c *Cell) (res *Result) {
 		_, err := os.Stat(c.Plugin.ExitMarker)
 		res.ExitMarker = err == nil
 	}
+	res.XlateRefused = xlateRefused.Load()
 	res.SyncOut, res.SyncErr = so.String(), se.String()
 	if pl := plog.String(); len(pl) > 3000 {
 		res.PluginLog = pl[len(pl)-3000:]
@@ -688,3 +779,25 @@ func pluginGoroutines() []string {
 }
 
 var _ = io.Discard
+
+// fakeAttached is the AttachedRunner of a custom ReattachFunc: it only counts what it is asked to do.
+type fakeAttached struct {
+	kills atomic.Int32
+	done  chan struct{}
+	once  sync.Once
+}
+
+func (f *fakeAttached) ch() chan struct{} {
+	f.once.Do(func() { f.done = make(chan struct{}) })
+	return f.done
+}
+func (f *fakeAttached) Wait(context.Context) error { <-f.ch(); return nil }
+func (f *fakeAttached) Kill(context.Context) error {
+	if f.kills.Add(1) == 1 {
+		close(f.ch())
+	}
+	return nil
+}
+func (f *fakeAttached) ID() string                                       { return "fake" }
+func (f *fakeAttached) PluginToHost(n, a string) (string, string, error) { return n, a, nil }
+func (f *fakeAttached) HostToPlugin(n, a string) (string, string, error) { return n, a, nil }
